@@ -279,7 +279,7 @@ func (fv *FV) Verify() (err error) {
 			panic(r)
 		}
 	}()
-	g, e := BuildCFG(fv.fn.Body)
+	g, e := BuildCFG(fv.fn.Body, fv.lowerOpts())
 	if e != nil {
 		return fmt.Errorf("%s: %v", fv.fn.Key, e)
 	}
@@ -737,6 +737,8 @@ func (fv *FV) execBlock(b *Block, st *State, edges map[edgeKey]*State, region ma
 			c = eq(tag, fv.expr(b.Cond.Expr, cx).T)
 		case CRangeHas:
 			c = fv.rangeHas(b.Cond.Range, st)
+		case CCell:
+			c = fv.get(st, b.Cond.Aux, SBool)
 		}
 		t, f := st.clone(), st
 		fv.assume(t, c)
@@ -819,6 +821,21 @@ func (fv *FV) doReturn(b *Block, st *State) {
 		for i, r := range fv.results {
 			if r.Name() != "" && r.Name() != "_" {
 				res[i].T = fv.get(st, fv.varCell(r), res[i].S)
+			}
+		}
+	}
+	// ghost statements attached to the returns (`ghost return : lhs = rhs`, with `result` bound)
+	if fv.fc != nil {
+		for _, gs := range fv.fc.Ghosts {
+			if gs.At == "return" {
+				env := map[string]TV{}
+				for i, r := range res {
+					if len(res) == 1 {
+						env["result"] = r
+					}
+					env[fmt.Sprintf("result%d", i)] = r
+				}
+				fv.ghostAssignEnv(gs, st, env)
 			}
 		}
 	}
